@@ -1,7 +1,7 @@
 #!/bin/bash
 # usage: seed_recheck.sh <ID> [tier] [check-id]  - re-run a check against the stored seeded change
 set -u
-ID=$1; TIER=${2:-quick}; CHK=${3:-$ID}
+ID=$1; TIER=${2:-quick}; CHK=${3:-${ID%%-*}}
 EV=/tmp/rc-$ID-$$
 OUT=/verif/seeded/$ID
 git -C /repo worktree add -q --detach $EV HEAD || exit 2
